@@ -363,6 +363,11 @@ class StatFamily(Family):
                 axis = ["t"] + [a for a in range(vnd) if a != keep]
             else:
                 axis = ["t"] + [a for a in range(vnd) if rng.random() < 0.5]
+            if nd > 1 and rng.random() < 0.25 and not (sel is not None and sel[0] == "slice" and rng.random() < 0.7):
+                # the chunked configuration: view None, all axes but one, small chunk limit
+                view, vnd = None, nd
+                keep = rng.randrange(nd)
+                axis = ["t"] + [a for a in range(nd) if a != keep]
             stat = rng.choice(STATS + [["percentile", rng.choice([0, 10, 25, qv(75, 2), 50, 66, 75, 90, 100])]])
             fin, pos = rng.choice([(True, False), (True, False), (True, True), (False, False), (False, True)])
             flat = fix_stat_data(flat, stat, fin)
